@@ -74,15 +74,32 @@ class C12Episode(Episode):
         d = os.path.dirname(self.ini_path)
         split = bool(version.get('inc'))
         txt = render(version, self.cfg.get('check_delay', 1.0),
-                     'main' if split else None)
-        with open(self.ini_path, 'w') as f:
-            f.write(txt.replace('@SCRATCH@', d))
+                     'main' if split else None).replace('@SCRATCH@', d)
+        self.put(self.ini_path, txt)
         inc = os.path.join(d, 'inc.ini')
         if split:
-            with open(inc, 'w') as f:
-                f.write(render(version, 0, 'inc').replace('@SCRATCH@', d))
+            self.put(inc, render(version, 0, 'inc').replace('@SCRATCH@', d))
         elif os.path.exists(inc):
             os.unlink(inc)
+
+    def put(self, path, txt):
+        """a file whose content does not change is not touched; one that
+        returns to an earlier content is a backup put back (mv, cp -p,
+        rsync -t): it comes with the time stamp it had then"""
+        seen = self.__dict__.setdefault('mtimes', {})
+        try:
+            if open(path).read() == txt:
+                return
+        except OSError:
+            pass
+        with open(path, 'w') as f:
+            f.write(txt)
+        key = (path, txt)
+        if key in seen:
+            os.utime(path, ns=(seen[key], seen[key]))
+            self.probes['backup_put_back'] += 1
+        else:
+            seen[key] = os.stat(path).st_mtime_ns
 
     def run_ops(self):
         for i, v in enumerate(self.case['versions'][1:]):
